@@ -35,7 +35,9 @@ def build_callable(sig, form, toks):
     npo = sum(1 for p in sig if p["kind"] == "po")
     for i, p in enumerate(sig, 1):
         ann = f": E{i}" if p["ann"] else ""
-        dflt = " = 'dflt'" if p["dflt"] else ""
+        # the default is the very text the parameter gets when it is passed by keyword: an explicit argument that equals the
+        # default (but is to be converted) must not be mistaken for "nothing passed"
+        dflt = f" = 'v_p{i}'" if p["dflt"] else ""
         if p["kind"] == "ko" and not star:
             if not any(q["kind"] == "va" for q in sig):
                 parts.append("*")
@@ -50,6 +52,13 @@ def build_callable(sig, form, toks):
             parts.append("/")
     params = ", ".join(parts)
     ret = "{" + ", ".join(f"'p{i}': p{i}" for i in range(1, len(sig) + 1)) + "}"
+    # classes and callable instances also declare *attributes* named like the parameters, annotated with other Enum classes:
+    # the parameter's own annotation decides, not a class-body annotation of the same name
+    body_ann = ""
+    if form in ("instance", "class", "class_new") and enums:
+        battr = {f"B{k[1:]}": enum.Enum(f"Y{k[1:]}", {f"m{j}": t for j, t in enumerate(toks)}, module=modname) for k in enums}
+        mod.__dict__.update(battr)
+        body_ann = "".join(f"    p{k[1:]}: B{k[1:]}\n" for k in sorted(enums))
     if form == "function":
         src = f"def f({params}):\n    'doc of f'\n    return {ret}\n"
     elif form == "method":
@@ -59,7 +68,7 @@ def build_callable(sig, form, toks):
         src = (f"class C:\n    def m(self, {params}):\n        'doc of m'\n        return {ret}\n"
                f"decoy = C.m\ndecoy_self = C()\nf = C().m\n")
     elif form == "instance":
-        src = f"class C:\n    def __call__(self, {params}):\n        'doc of call'\n        return {ret}\nf = C()\n"
+        src = f"class C:\n{body_ann}    def __call__(self, {params}):\n        'doc of call'\n        return {ret}\nf = C()\n"
     elif form == "closure":
         # a factory whose product shares one code object across calls but not its annotations:
         # first a decoy product (other Enum classes) is bound and called, then the real one
@@ -70,10 +79,10 @@ def build_callable(sig, form, toks):
         src = (f"def make({ens}):\n    def f({params}):\n        'doc of f'\n        return {ret}\n    return f\n"
                f"decoy = make({dec})\nf = make({ens if enums else 'None'})\n")
     elif form == "class":
-        src = (f"class f:\n    'doc of class'\n    def __init__(self, {params}):\n        self.got = {ret}\n")
+        src = (f"class f:\n    'doc of class'\n{body_ann}    def __init__(self, {params}):\n        self.got = {ret}\n")
     elif form == "class_new":
         # a pass-through __new__: inspect.signature(cls) is then (*args, **kwargs), the annotated __init__ still decides
-        src = (f"class f:\n    'doc of class'\n    def __new__(cls, *args, **kwargs):\n        return super().__new__(cls)\n"
+        src = (f"class f:\n    'doc of class'\n{body_ann}    def __new__(cls, *args, **kwargs):\n        return super().__new__(cls)\n"
                f"    def __init__(self, {params}):\n        self.got = {ret}\n")
     exec(compile(src, "<verif-generated>", "exec", dont_inherit=True), mod.__dict__)
     return mod.f, mod, src
@@ -151,7 +160,10 @@ def observe(sig, call, form, entry):
 
     def conv_of(v):
         if isinstance(v, enum.Enum):
-            return "p" + type(v).__name__[1:], v.value
+            n = type(v).__name__
+            # E<i> is the annotation of parameter i; X<i> / Y<i> are decoys (another product of the factory, a class-body
+            # annotation of the same name): converted by one of those is converted by the wrong thing
+            return ("p" + n[1:]) if n.startswith("E") else ("decoy" + n), v.value
         return "raw", v
 
     landed = {}   # token -> list of (param name, conv)
@@ -167,8 +179,8 @@ def observe(sig, call, form, entry):
             items = [(None, val)]
         for key, v in items:
             c, raw = conv_of(v)
-            if c == "raw" and raw == "dflt":
-                continue
+            if c == "raw" and raw == f"v_p{i}" and p["dflt"] and (f"p{i}" not in names or p["kind"] == "po"):
+                continue            # the untouched default (a positional-only name given by keyword goes to **kwargs)
             if c == "raw" and isinstance(raw, str) and (raw in allnames or raw in names) and not raw.startswith(("a", "v_")):
                 landed.setdefault(("key", raw), []).append((f"p{i}", "key", key))
             else:
